@@ -250,7 +250,17 @@ def _vs_base(e, pol, value):
 
 # --------------------------------------------------------------------------- R2
 
-def _loop_over(loop, base_path):
+def _deq_aliases(f):
+    """Locals of f that are bound exactly once, to self.injections (`injections = self.injections`)."""
+    out = set()
+    for st in stores(f.node, into_defs=True):
+        if st.kind == "assign" and st.value is not None and ap(st.value) == DEQ and isinstance(st.target, ast.Name) \
+                and _stored_once(f, st.target.id):
+            out.add(st.target.id)
+    return out
+
+
+def _loop_over(loop, base_path, aliases=()):
     """(is a loop over base_path, descending?, order understood?)"""
     it, desc, ok = loop.iter, False, True
     while isinstance(it, (ast.Call, ast.Subscript)):
@@ -273,7 +283,7 @@ def _loop_over(loop, base_path):
         if not it.args:
             break
         it = it.args[0]
-    return ap(it) == base_path, desc, ok
+    return ap(it) == base_path or (isinstance(it, ast.Name) and it.id in aliases), desc, ok
 
 
 def _callee_of(repo, f, call):
@@ -329,11 +339,11 @@ def _elem_and_index(target, it):
     return None, None
 
 
-def _comp_loops(fn_node, base_path):
+def _comp_loops(fn_node, base_path, aliases=()):
     out = []
     for n in walk(fn_node, into_defs=True):
         if isinstance(n, (ast.GeneratorExp, ast.ListComp, ast.SetComp)) and len(n.generators) == 1:
-            over, desc, ok = _loop_over(n.generators[0], base_path)
+            over, desc, ok = _loop_over(n.generators[0], base_path, aliases)
             if over:
                 from ..core import parent
                 p = parent(n)
@@ -350,13 +360,14 @@ def _inj_loops(repo, ci):
     for f in repo.all_funcs:
         if f.cls is None or f.cls != ci or f.parent_fn is not None:
             continue
+        al = _deq_aliases(f)
         for n in walk(f.node, into_defs=True):
             if isinstance(n, (ast.For, ast.AsyncFor)):
-                over, desc, ok = _loop_over(n, DEQ)
+                over, desc, ok = _loop_over(n, DEQ, al)
                 if over:
                     out.append((f, n, desc, ok, f, None))
             elif isinstance(n, (ast.GeneratorExp, ast.ListComp, ast.SetComp)):
-                for cl, desc, ok in _comp_loops(n, DEQ):
+                for cl, desc, ok in _comp_loops(n, DEQ, al):
                     if cl.node is n:
                         out.append((f, cl, desc, ok, f, None))
             elif isinstance(n, ast.Call):
@@ -364,7 +375,7 @@ def _inj_loops(repo, ci):
                 if g is None:
                     continue
                 for pname, a in _arg_binding(n, params).items():
-                    if ap(a) != DEQ:
+                    if ap(a) != DEQ and not (isinstance(a, ast.Name) and a.id in al):
                         continue
                     for m in walk(g.node, into_defs=True):
                         if isinstance(m, (ast.For, ast.AsyncFor)):
@@ -783,7 +794,7 @@ def r4(ctx):
     ctx.ob("C04.R4", "gen_injectable_id carries evicted injections into _injection_base", len(incs) >= 1, gen.where,
            "evicted injections are forgotten: every ID above them translates one too low per eviction")
     for f, st in incs:
-        fs = facts(st.node, f.node)
+        fs = [_through_property(repo, ci, e, pol) for e, pol in facts(st.node, f.node)]
         full = []
         for e, pol in fs:
             if isinstance(e, ast.Compare) and len(e.ops) == 1 and pol:
@@ -931,6 +942,77 @@ def r6(ctx):
                f"exceptional ones): after a fault in between, the same message can be prepared again and its ID shifted twice")
 
 
+# --------------------------------------------------------------------------- R7
+
+PROXY = "hippolyzer/lib/proxy/lludp_proxy.py"
+
+
+def r7(ctx):
+    repo = ctx.repo
+    ctx.rule("C04.R7", "every datagram on a translated circuit goes through that circuit's trackers, for the whole life of "
+                       "the circuit: the intercepting proxy never relays a datagram around the circuit (base-class "
+                       "pass-through / transport.send_packet), and the trackers of a live circuit are never replaced")
+    # (a) no relay around the circuit
+    hp = repo.fn("InterceptingLLUDPProxyProtocol.handle_proxied_packet")
+    fns = class_methods_reachable(repo, hp, depth=3)
+    sends = [c for g in fns for c in calls(g.node, into_defs=True) if isinstance(c.func, ast.Attribute) and c.func.attr == "send"
+             and "circuit" in (ap(c.func.value) or "")]
+    ctx.floor("C04.R7", "circuit.send calls of the intercepting proxy", len(sends), 1)
+    bypass = []
+    for g in fns:
+        for c in calls(g.node, into_defs=True):
+            if not isinstance(c.func, ast.Attribute):
+                continue
+            recv = c.func.value
+            via_super = isinstance(recv, ast.Call) and ap(recv.func) == "super" and c.func.attr == "handle_proxied_packet"
+            via_base = isinstance(recv, ast.Name) and recv.id != "self" and c.func.attr == "handle_proxied_packet" \
+                and any(b.name == recv.id for b in repo.mro(hp.cls)[1:])
+            raw_send = c.func.attr == "send_packet"
+            if via_super or via_base or raw_send:
+                bypass.append((g, c))
+    ctx.ob("C04.R7", f"{hp.qual}: datagrams leave only through the circuit", not bypass, hp.where,
+           "; ".join(f"{g.qual}: `{norm(c)}`" for g, c in bypass) +
+           " relays a datagram as it came: its packet ID is neither shifted past the injected IDs nor fed to track_seen, "
+           "so it can collide with an injected ID and later IDs are allocated below it" if bypass else "")
+    # (b) the trackers live as long as the circuit: ProxiedCircuit is (re)built only for a dead / missing circuit
+    ctors = [(f, c) for f, c in call_index(repo).get("ProxiedCircuit", []) if f.module.rel.startswith("hippolyzer/lib/proxy/")]
+    ctx.floor("C04.R7", "ProxiedCircuit constructions in the proxy", len(ctors), 1)
+    for f, c in ctors:
+        cfg = CFG(f.node)
+        targets = cfg.stmt_nodes_containing(c)
+        for d in [x for x in calls(f.node, into_defs=True) if isinstance(x.func, ast.Attribute) and x.func.attr == "disconnect"]:
+            dead = any((not pol) and (ap(e) or "").endswith(".is_alive") for e, pol in facts(d, f.node))
+            reaches = cfg.path_exists(cfg.stmt_nodes_containing(d), lambda n: n in targets, exc=False) is not None
+            ctx.ob("C04.R7", f"{f.qual}: `{norm(d)}` never tears down a live circuit ahead of a new ProxiedCircuit",
+                   dead or not reaches, ctx.w(f, d),
+                   "a circuit that is still alive is disconnected and rebuilt: the endpoint keeps counting, but the new "
+                   "trackers start from nothing, so earlier injections are forgotten and IDs translate differently than before")
+        def dead_test(e, pol):
+            """(e is pol) says: no circuit / circuit not alive"""
+            if isinstance(e, ast.UnaryOp) and isinstance(e.op, ast.Not):
+                return dead_test(e.operand, not pol)
+            if isinstance(e, ast.BoolOp) and isinstance(e.op, ast.Or) and pol:
+                return all(dead_test(v, True) for v in e.values)
+            if isinstance(e, ast.BoolOp) and isinstance(e.op, ast.And) and not pol:
+                return all(dead_test(v, False) for v in e.values)
+            return (not pol) and ((ap(e) or "").endswith(".is_alive") or (ap(e) or "").endswith(".circuit"))
+        from ..core import conditions
+        alive_guard = any(dead_test(cd.test, cd.polarity) for cd in conditions(c, f.node))
+        ctx.ob("C04.R7", f"{f.qual}: `ProxiedCircuit(...)` built only when there is no live circuit", alive_guard, ctx.w(f, c),
+               "construction not under a `not circuit / not circuit.is_alive` condition")
+
+
+def _through_property(repo, ci, e, pol):
+    """A fact that is the truth of `self.<property>` stands for what the property returns (single-return getter)."""
+    if isinstance(e, ast.Attribute) and isinstance(e.value, ast.Name) and e.value.id == "self":
+        m = repo.lookup_method(ci, e.attr)
+        if m is not None and any((ap(d) or "").split(".")[-1] == "property" for d in m.node.decorator_list):
+            rets = [r for r in walk(m.node) if isinstance(r, ast.Return)]
+            if len(rets) == 1 and rets[0].value is not None:
+                return rets[0].value, pol
+    return e, pol
+
+
 def _is_len_deq(e):
     return isinstance(e, ast.Call) and ap(e.func) == "len" and len(e.args) == 1 and ap(e.args[0]) == DEQ
 
@@ -942,4 +1024,5 @@ def run(ctx):
     r4(ctx)
     r5(ctx)
     r6(ctx)
+    r7(ctx)
     ctx.assume("the bijection law over all histories is arithmetic over runtime state and is not decided statically")
